@@ -341,7 +341,9 @@ for st in (_BS.LOW, _BS.HIGH):
     c.bound = "exhaustive widths 1..8 / 1..10"
     con.cases.append(c)
 
-con = contract(BVMOD + "__getitem__", PROPS, status="assumed")
+# (also C13: the views of the qualified types delegate to this function for the value they alias -- an index outside
+#  0..width-1, a negative one in particular, has no element to alias and must be rejected)
+con = contract(BVMOD + "__getitem__", PROPS + ("C13",), status="assumed")
 for n1, V1 in (("bv", BVShape), ("u", UShape), ("s", SShape)):
     c = Case(f"{n1}-int", [V1("w1", "a"), PyInt("i")], spec_bv_getitem_int)
 
@@ -356,7 +358,7 @@ for n1, V1 in (("bv", BVShape), ("u", UShape), ("s", SShape)):
     c.bound = "exhaustive widths 1..7 / 1..9, index -1..w+1"
     con.cases.append(c)
 
-con = contract("<BitVector slice a[hi:lo]>", PROPS, status="assumed", fn=_bv_getitem_slice)
+con = contract("<BitVector slice a[hi:lo]>", PROPS + ("C13",), status="assumed", fn=_bv_getitem_slice)
 for n1, V1 in (("bv", BVShape), ("u", UShape), ("s", SShape)):
     c = Case(f"{n1}", [V1("w1", "a"), PyInt("hi"), PyInt("lo")], spec_bv_getitem_slice)
 
